@@ -260,7 +260,7 @@ def _side(ctx, cfg, prog, mod):
             ctx.ob('SIDE', '%s|replace|%s' % (field, owner), cfg, ok or field == 'spatial_index',
                    'whole-receiver replacement in %s: %s' % (owner.rsplit('::', 1)[-1], d), nontrivial=ok)
     ctx.floor('SIDE (field, operation) pairs that can change the field', 10, n_mut, cfg)
-    ctx.floor('whole-receiver replacement sites', 2, len(sites), cfg)
+    ctx.floor('whole-receiver replacement sites', 1, len(sites), cfg)
     for q, why in sorted(side.BENIGN.items()):
         ctx.anchor(cfg, q)
         ctx.ob('SIDE', 'benign|' + q, cfg, False, 'writes of %s to the tracked fields are not counted' % q.rsplit('::', 1)[-1],
